@@ -13,8 +13,10 @@ type t81par struct {
 	tds      []int    // Td per component
 	spec     []string // per table id 0..3: "-", "std", "opt", "x<hex>"
 	dhtAfter bool
-	extras   bool
+	extras   int // extraSegs mode of the t81_encode op: 0 none, 1 demo, 2..4 with EMPTY payloads
 }
+
+func (p *t81par) emptySeg() bool { return p.extras >= 2 }
 
 func (p *t81par) maxID() int {
 	m := 0
@@ -52,8 +54,8 @@ func runC13(c *Ctx) {
 	c.R.Rule = "C13 jpegll: (a) every stream of lossless.Encode (predictor 0..7) and lossless14sv1.Encode is decoded by the " +
 		"extracted independent T.81 Annex H decoder (JllT81.t81_decode) and compared with the source; (b) streams of the " +
 		"independent T.81 encoder (predictor 1..7, Td in 0..3 per component, tables standard-extended / per-image optimal / " +
-		"seeded random canonical with all 17 categories, DHT before or after SOF3, optional APP1/COM/APP14 segments containing " +
-		"marker-like bytes) are decoded by lossless.Decode and, for predictor 1, lossless14sv1.Decode and compared with the " +
+		"seeded random canonical with all 17 categories, DHT before or after SOF3, optional APPn/COM segments containing " +
+		"marker-like bytes or with EMPTY payloads (Lp = 2) after SOI and directly in front of SOS) are decoded by lossless.Decode and, for predictor 1, lossless14sv1.Decode and compared with the " +
 		"source; images: P in 2..16, 1 or 3 components, contents as in C02; non-trivial = not all samples equal"
 	if !c.HasModel() {
 		c.R.Note("C13 needs the extracted T.81 reference codec; no model available, nothing evaluated")
@@ -109,6 +111,21 @@ func runC13(c *Ctx) {
 		}
 	}
 	cases = append(cases, cs{im: fibImage(rng), pars: []*t81par{randPar(rng, 1, 1, 0), randPar(rng, 1, 1, 2)}})
+	// conformant streams with EMPTY-payload APPn/COM segments, always present: table 0 only, both
+	// DHT placements, every extraSegs mode with an empty segment, predictor 1 (both decoders) and 4, 7
+	for _, comps := range []int{1, 3} {
+		for mode := 2; mode <= 4; mode++ {
+			for _, pred := range []int{1, 1, 4, 7} {
+				p := rng.Pick(8, 12, 16)
+				im := fill(rng, rng.Range(1, 9), rng.Range(1, 9), comps, p, contentKinds[rng.Intn(len(contentKinds))])
+				par := &t81par{pred: pred, dhtAfter: rng.Bool(), extras: mode, spec: []string{[]string{"std", "opt"}[rng.Intn(2)], "-", "-", "-"}}
+				for i := 0; i < comps; i++ {
+					par.tds = append(par.tds, 0)
+				}
+				cases = append(cases, cs{im: im, pars: []*t81par{par}})
+			}
+		}
+	}
 	mutationTie(c)
 	ParallelFor(len(cases), c.Work, func(i int) {
 		k := cases[i]
@@ -128,7 +145,13 @@ func runC13(c *Ctx) {
 // randPar: idClass 0 = table ids 0..1 only, 1 = ids 0..3 used, 2 = only id 0 used but ids
 // 2..3 may be defined
 func randPar(rng *Rand, pred, comps, idClass int) *t81par {
-	p := &t81par{pred: pred, dhtAfter: rng.Bool(), extras: rng.Intn(3) == 0, spec: []string{"-", "-", "-", "-"}}
+	p := &t81par{pred: pred, dhtAfter: rng.Bool(), spec: []string{"-", "-", "-", "-"}}
+	switch rng.Intn(6) {
+	case 0:
+		p.extras = 1
+	case 1:
+		p.extras = rng.Range(2, 4)
+	}
 	hi := 1
 	if idClass == 1 {
 		hi = 3
@@ -234,6 +257,10 @@ func perm17(rng *Rand) []int {
 }
 
 func sigGodec(codec string, im *Img, par *t81par) string {
+	if par.emptySeg() && par.maxID() <= 1 {
+		// a conformant stream with an APPn/COM segment whose payload is empty
+		return codec + ":godec:emptyseg"
+	}
 	if codec == "sv1" {
 		return fmt.Sprintf("sv1:godec:td=%d", par.maxID())
 	}
@@ -252,9 +279,9 @@ func tdString(tds []int) string { return Ints(tds) }
 // godecOracle: reference stream -> implementation decoders = source
 func godecOracle(c *Ctx, im *Img, px []byte, par *t81par) {
 	input := im.Input(map[string]interface{}{"dir": "godec", "pred": par.pred, "tds": tdString(par.tds),
-		"tablespec": strings.Join(par.spec, "/"), "dhtAfterSof": b01(par.dhtAfter), "extraSegs": b01(par.extras)})
+		"tablespec": strings.Join(par.spec, "/"), "dhtAfterSof": b01(par.dhtAfter), "extraSegs": itoa(par.extras)})
 	rep := c.M.Call("t81_encode", itoa(im.W), itoa(im.H), itoa(im.C), itoa(im.P), itoa(par.pred), tdString(par.tds),
-		strings.Join(par.spec, "/"), b01(par.dhtAfter), b01(par.extras), Hex(px))
+		strings.Join(par.spec, "/"), b01(par.dhtAfter), itoa(par.extras), Hex(px))
 	if !strings.HasPrefix(rep, "ok:") {
 		c.R.Fail("corr", "t81_encode", "t81_encode:"+rep, "reference encoder did not produce a stream", input)
 		return
@@ -273,7 +300,7 @@ func godecOracle(c *Ctx, im *Img, px []byte, par *t81par) {
 			codec = "sv1"
 		}
 		dk := []string{"godec." + codec, "godec.pred." + itoa(par.pred), "godec.maxid." + itoa(par.maxID()),
-			"godec.dhtafter." + b01(par.dhtAfter), "godec.extras." + b01(par.extras), "P." + itoa(im.P), "comps." + itoa(im.C)}
+			"godec.dhtafter." + b01(par.dhtAfter), "godec.extras." + itoa(par.extras), "P." + itoa(im.P), "comps." + itoa(im.C)}
 		for _, kd := range []string{"std", "opt", "rnd"} {
 			if strings.Contains(par.kinds(), kd) {
 				dk = append(dk, "godec.table."+kd)
@@ -364,7 +391,7 @@ func replayC13(c *Ctx) {
 		case "godec":
 			par := &t81par{pred: inInt(f.Input, "pred"), tds: ParseInts(inStr(f.Input, "tds")),
 				spec: strings.Split(inStr(f.Input, "tablespec"), "/"), dhtAfter: inStr(f.Input, "dhtAfterSof") == "1",
-				extras: inStr(f.Input, "extraSegs") == "1"}
+				extras: inInt(map[string]interface{}{"x": float64(atoiSafe(inStr(f.Input, "extraSegs")))}, "x")}
 			godecOracle(c, im, px, par)
 		}
 	}
@@ -402,7 +429,14 @@ func mutationTie(c *Ctx) {
 		sosLen := 2 + (int(s[sos+2])<<8 | int(s[sos+3]))
 		scan := sos + sosLen
 		what := ""
-		switch rng.Intn(12) {
+		switch rng.Intn(14) {
+		case 12, 13:
+			// not damage: an APPn/COM segment with an EMPTY payload (Lp = 2) inserted before the
+			// frame header or directly before the scan header; both decoders must still decode
+			what = "empty-segment"
+			seg := []byte{0xFF, []byte{0xFE, 0xE0, 0xE5, 0xEF}[rng.Intn(4)], 0x00, 0x02}
+			at := []int{2, sof, dht, sos}[rng.Intn(4)]
+			s = append(append(append([]byte{}, s[:at]...), seg...), s[at:]...)
 		case 0:
 			what = "flip-header"
 			j := rng.Range(2, scan-1)
@@ -473,4 +507,12 @@ func mutationTie(c *Ctx) {
 			c.CorrEq("decode_mutated", codec+":mutated:"+k.what, c.M.Call(op, Hex(k.stream)), dec.String(), in)
 		}
 	})
+}
+
+func atoiSafe(x string) int {
+	v := ParseInts(x)
+	if len(v) == 0 {
+		return 0
+	}
+	return v[0]
 }
